@@ -72,7 +72,8 @@ theorem program_delivers_exactly_once_in_order {ρ : Nat → Reply} (hρ : AllAc
     ∃ n, n ≤ prog.length ∧ ((runProgram ρ cfg prog).2 = false → n = prog.length) ∧
       ∀ k, delivered k (runProgram ρ cfg prog).1.log = progPayload cfg k (prog.take n) := by
   obtain ⟨n, h1, h2, h3⟩ := runStmts_allAccept hρ cfg prog St.init noFlags_init
-  refine ⟨n, h1, h2, fun k => ?_⟩
+  refine ⟨n, h1, fun hf => h2 ?_, fun k => ?_⟩
+  · simpa [runProgram, loop, flushallFails_allAccept hρ] using hf
   simp only [runProgram, loop, clearall, flushall, clearLoop_delivered, flushallLoop_delivered]
   simpa [St.init, delivered] using h3 k
 
@@ -257,8 +258,7 @@ theorem flushall_flushes_everything (ρ : Nat → Reply) (s : St) :
   ⟨flushallLoop_chain ρ _ s, fun x hx => flushallLoop_flushes ρ _ s x hx⟩
 
 /-- **(d)** When `hawk_rtx_loop` returns — normally or by a run error — every stream still open has been sent a
-FLUSH after the last WRITE it received.  (The handler's answer to that FLUSH is ignored by the C code;
-see the report.) -/
+FLUSH after the last WRITE it received.  (What happens when that FLUSH fails: `final_flush_failure_surfaces`.) -/
 theorem flushed_at_return (ρ : Nat → Reply) (cfg : Cfg) (prog : List Stmt) :
     ∀ x ∈ (loop ρ cfg prog).1.chain, flushedSinceWrite x.sid (loop ρ cfg prog).1.log = true := by
   intro x hx
@@ -266,6 +266,32 @@ theorem flushed_at_return (ρ : Nat → Reply) (cfg : Cfg) (prog : List Stmt) :
   simp only [loop] at hx ⊢
   rw [this.1] at hx
   exact this.2 x hx
+
+/-- **(d)/(b)** (repair `rio-final-flush-failure-fails-the-run`) The FLUSH that `hawk_rtx_loop` sends to the `i`-th
+open stream at the end of the run is handler call number `calls + i`.  If that stream has a write side and the call
+fails, `hawk_rtx_loop` does not report success: output that could not be written is not lost silently. -/
+theorem final_flush_failure_surfaces (ρ : Nat → Reply) (cfg : Cfg) (prog : List Stmt) (i : Nat) (x : Strm)
+    (hx : (runStmts ρ cfg prog St.init).1.chain[i]? = some x) (hw : x.hasWriteSide = true)
+    (hf : ρ ((runStmts ρ cfg prog St.init).1.calls + i) = .fail) :
+    (loop ρ cfg prog).2 = true := by
+  simp [loop, flushallFails_of hx hw hf]
+
+/-- the number of handler calls the final flush makes: one per open stream -/
+theorem final_flush_calls (ρ : Nat → Reply) (s : St) : (flushall ρ s).calls = s.calls + s.chain.length :=
+  flushallLoop_calls ρ s.chain s
+
+/-- (repair `rio-close-reports-unwritten-output`) `close()` of a stream that has a write side first sends FLUSH;
+if that fails the stream is closed all the same — a file or one-way pipe leaves the chain — but the result is -1 -/
+theorem close_reports_flush_failure (ρ : Nat → Reply) (s : St) (name : String) (x : Strm)
+    (hx : s.chain.find? (closeHit name none) = some x) (hw : x.key.mask = .wr)
+    (hf : ρ s.calls = .fail) (hc : ρ (s.calls + 1) ≠ .fail) :
+    (closeio ρ s name none).2 = -1 ∧ (closeio ρ s name none).1.chain = s.chain.eraseP (closeHit name none) := by
+  simp only [closeio, hx, preFlush, Strm.hasWriteSide, hw, closeReq, closeMode]
+  simp only [decide_true, Bool.true_or, if_true, emit_calls, hf, Reply.isFail]
+  cases hr : ρ (s.calls + 1) with
+  | fail => exact absurd hr hc
+  | eof => simp
+  | accept k => simp
 
 /-! ## the console read loop (getline at the end of a console stream asks the handler for the NEXT stream)
 
@@ -297,6 +323,16 @@ theorem read_out_of_fuel_is_endless_next (ρ : Nat → Reply) (con : Bool) (sid 
 
 /-! ## non-vacuity -/
 
+/-- the hypotheses of `final_flush_failure_surfaces` are satisfiable: one print, the final FLUSH (call 3) fails -/
+example : (loop (fun i => if i = 3 then .fail else .accept 9) {} [.print .file "f" false (some [['a']])]).2 = true := by
+  simp [loop, runStmts, stmt, writePieces, printPieces, printPieces.go, writeio, prepareWrite, findKey, St.init, writeLoop,
+    flushallFails, Strm.hasWriteSide, OutKind.key, OutKind.mask, Reply.isFail]
+
+/-- the hypotheses of `close_reports_flush_failure` are satisfiable -/
+example : let s := (exec (fun _ => .accept 9) St.init [.write .file "f" false ['a']]).1
+    ∃ x, s.chain.find? (closeHit "f" none) = some x ∧ x.key.mask = .wr := by
+  simp [exec, step, writeio, prepareWrite, findKey, St.init, writeLoop, closeHit, closeMode, OutKind.key, OutKind.mask]
+
 /-- the console loop really goes round: READ→eof, NEXT→ok, READ→record returns 1 after three calls … -/
 example : (readio (fun i => if i = 1 then .eof else .accept 0) 8 St.init .console "").2 = 1 ∧
     (readio (fun i => if i = 1 then .eof else .accept 0) 8 St.init .console "").1.calls = 4 := by
@@ -327,7 +363,7 @@ example : let r := stmt (fun _ => .accept 0) {} St.init (.print .file "f" false 
 /-- the hypotheses of `rwpipe_same_end_twice` are met after `close(cmd, "r")` on a two-way pipe -/
 example : ∃ x, (exec (fun _ => .accept 0) St.init [.write .rwpipe "c" false [], .close "c" (some true)]).1.chain = [x]
     ∧ x.key.name = "c" ∧ x.key.mask = .rw ∧ x.rwcstate = .rd := by
-  simp [exec, step, writeio, prepareWrite, findKey, St.init, writeLoop, closeio, closeHit, closeMode, modifyFirst,
-    OutKind.key, OutKind.mask]
+  simp [exec, step, writeio, prepareWrite, findKey, St.init, writeLoop, closeio, closeReq, preFlush, Strm.hasWriteSide,
+    closeHit, closeMode, modifyFirst, OutKind.key, OutKind.mask]
 
 end Hawk.Rio.C05
